@@ -397,10 +397,15 @@ func c01Oracle(w *simWorld, faultEvs []int) (out []Violation, trigger bool) {
 			}
 			// (2)/(4) gapless within an incarnation when no store fault / crash lies between
 			if prev.Inc == a.Inc && a.Seq != prev.Seq+1 {
+				// a failed save may leave the stored counter one ahead; that shows only after the topic is loaded again
 				faultBetween := false
 				for _, fe := range faultEvs {
 					if fe >= prev.SentEv && fe <= a.AckEv {
-						faultBetween = true
+						for _, sc := range simStore.Log {
+							if sc.Method == "TopicGet" && len(sc.Args) > 0 && sc.Args[0] == tname && sc.Ev >= fe && sc.Ev <= a.AckEv {
+								faultBetween = true
+							}
+						}
 					}
 				}
 				for _, u := range unans[tname] {
